@@ -19,6 +19,11 @@ class P(HTMLParser):
     def handle_decl(s, d): s.ev.append(("D", d))
 
 
+# attribute names: syntactic corner cases and the names a renderer might be tempted to treat specially
+ANAMES = ["id", "class", "data-x", "title", "x:y", "a.b", "x__", "y-", "x", "data_a_", "z--", "href", "src", "alt", "value", "style", "name", "type", "action",
+          "placeholder", "content", "srcset", "onclick", "aria-label", "for", "lang", "charset", "rel", "download", "checked", "hidden"]
+
+
 def norm(ev):
     res = []
     for e in ev:
@@ -36,14 +41,14 @@ def run(R, job):
     fails, checked, nontrivial, samples = [], 0, 0, []
     names = [x for x in ocommon.BLOCK + ocommon.INL if x not in ("script", "style")] + sorted(ocommon.VOID) + ["x-custom", "my_tag", "a1"]
     texts = ctx.texts + ["&", "<", ">", "&amp;", "a < b > c & d", "]]>", "<!--x-->", "<!DOCTYPE>", "</p>", "é😀", 3, 2.5, True]
-    avals = ["v", "", 'q"q', "a'b", "x\ny", "l\rm", "&lt;", "<>", " sp ", "é", 7, True]
+    avals = ["v", "", 'q"q', "a'b", "x\ny", "l\rm", "&lt;", "<>", " sp ", "é", 7, True, "?a=1&b=2", "?a=1&amp;b=2", "&#38;", "a&amp;amp;b", "http://h/p?q=<x>&r='s'"]
 
     def tree(d):
         if d <= 0 or r.random() < 0.3:
             return r.choice(texts)
         at = {}
         for _ in range(r.choice([0, 0, 1, 2, 3])):
-            at[r.choice(["id", "class", "data-x", "title", "x:y", "a.b", "x__", "y-", "x", "data_a_", "z--"])] = r.choice(avals)
+            at[r.choice(ANAMES)] = r.choice(avals)
         kids = [tree(d - 1) for _ in range(r.choice([0, 0, 1, 2, 3, 4]))]
         return core.Tag(r.choice(names), *kids, at, _add_ws=r.random() < 0.5)
 
@@ -65,8 +70,8 @@ def run(R, job):
         checked += 1
         for how, s2 in (("get_html_string", core.Tag("td", num).get_html_string()), ("str", str(core.Tag("td", "a", num, _add_ws=False)))):
             p0 = P(); p0.feed(s2); p0.close()
-            texts = "".join(e[1] for e in p0.ev if e[0] == "T")
-            if str(num) not in texts:
+            seen = "".join(e[1] for e in p0.ev if e[0] == "T")
+            if str(num) not in seen:
                 fails.append({"input": f"Tag('td', {num!r}) via {how}", "observed": s2, "expected": "text run " + str(num)})
     for _ in range(n):
         t = tree(4)
